@@ -164,7 +164,7 @@ cocls::async<void> consumer(const Prog *p, Gates *gates, Result *res) {
             switch (style) {
                 case S_NEXT_VALUE: {
                     bool more;
-                    if constexpr (GK == 2) more = (bool)g.next(arg); else more = (bool)g.next();
+                    if constexpr (GK == 2) { if (call % 3 == 0) more = (bool)g.next(int(arg)); else more = (bool)g.next(arg); }      /* (every third call hands the argument over as a temporary: it lives until the synchronous access returns) */ else more = (bool)g.next();
                     if (!more) code = -1; else code = GT<GK>::dec(g.value());
                 } break;
                 case S_ITER: {
@@ -258,7 +258,7 @@ void consumer_plain(const Prog *p, Gates *gates, Result *res) {
         try {
             if (style == S_NEXT_VALUE || (style == S_RANGE_FOR && it)) {
                 bool more;
-                if constexpr (GK == 2) more = (bool)g.next(arg); else more = (bool)g.next();
+                if constexpr (GK == 2) { if (call % 3 == 0) more = (bool)g.next(int(arg)); else more = (bool)g.next(arg); }      /* (every third call hands the argument over as a temporary: it lives until the synchronous access returns) */ else more = (bool)g.next();
                 if (!more) code = -1; else code = GT<GK>::dec(g.value());
             } else if (style == S_ITER) {
                 if constexpr (GK != 2) {
